@@ -57,6 +57,9 @@ type Report struct {
 	Canaries      []string
 	CanaryFired   int
 	CanaryTotal   int
+	Refactorings  []string
+	RefTotal      int
+	RefSilent     int
 }
 
 func NewReport(prop, tier string) *Report {
@@ -328,6 +331,11 @@ func (r *Report) Finish(verifDir string, seed int, start time.Time, loadErr erro
 		cov["canaries_total"] = r.CanaryTotal
 		cov["canaries_fired"] = r.CanaryFired
 		cov["canaries"] = r.Canaries
+	}
+	if r.RefTotal > 0 || len(r.Refactorings) > 0 {
+		cov["refactorings_total"] = r.RefTotal
+		cov["refactorings_silent"] = r.RefSilent
+		cov["refactorings"] = r.Refactorings
 	}
 	ev := evidence{
 		PropertyID:  r.Property,
